@@ -1,2 +1,2 @@
 (* C13 proofs, collected: byte helpers, generatePropertyPatches, package.json writer, pom.xml writer. *)
-From Scalibr Require Export Writers.GoBytesProofs Writers.PomPropsProofs Writers.PkgJsonProofs Writers.PomDeclProofs Writers.PomDeclPropProofs Writers.PomDeclFullProofs Writers.PomWriterProofs.
+From Scalibr Require Export Writers.GoBytesProofs Writers.PomPropsProofs Writers.PkgJsonProofs Writers.PomDeclProofs Writers.PomDeclPropProofs Writers.PomDeclFullProofs Writers.PomTokensProofs Writers.PomWriterProofs.
